@@ -1,3 +1,5 @@
+pub mod docs;
 pub mod forge;
 pub mod offer;
 pub mod pair;
+pub mod query;
